@@ -152,12 +152,15 @@ CHECKS = {
         technique="Lean 4 decision-logic / invariant theorems + differential correspondence"),
     "C07": dict(
         text="Theorems: the calls of one tick are all due note-offs of all tracks (track order) followed by the event phase in "
-             "snapshot order. Non-interference (projection of a multi-track run = the track's solo run), static-pattern hold / "
-             "idempotence, current time and globals are decided by oracles on the implementation and by the model correspondence.",
+             "snapshot order; NON-INTERFERENCE: for tracks that do not call the timeline API and unique track identities, a tick "
+             "decomposes into a per-track function (own note-offs, own pending starts, own solo tick): the event phase is the merge "
+             "of the tracks' own contributions in scheduling order, the track list the list of their own survivors, and the same "
+             "formula describes the track alone. Static-pattern hold / idempotence, current time and globals are decided by "
+             "reference state machines in the harness.",
         design="DESIGN.md §3 C07",
-        note=SCHED_NOTE + " The decomposition (non-interference) theorem is not proved yet: that clause rests on the merge oracle "
-             "(multi-track vs solo runs of the real code) and the model correspondence. PStaticPattern/PGlobals are checked against a "
-             "reference state machine in the harness.",
+        note=SCHED_NOTE + " The decomposition is proved per tick (the multi-tick form follows by iterating the per-track function) "
+             "for worlds without action callbacks; with callbacks tracks interact by design. PStaticPattern/PGlobals are checked "
+             "against a reference state machine in the harness (no Lean model).",
         technique="Lean 4 theorem (phase order) + merge oracle + differential correspondence"),
     "C17": dict(
         text="Theorems: in tolerant mode no track exception ever escapes the track phase (any fault site, any number/order of "
@@ -165,8 +168,9 @@ CHECKS = {
              "the remaining tracks of the snapshot are still ticked; in intolerant mode the exception propagates; callback "
              "exceptions are swallowed in both modes; a callback StopIteration ends the track.",
         design="DESIGN.md §3 C17",
-        note=SCHED_NOTE + " 'Every other track's output is identical to a run without the failing track' is decided by a "
-             "differential oracle on the real code (with vs without the failing tracks) and by the model correspondence.",
+        note=SCHED_NOTE + " 'Every other track's output is identical to a run without the failing track' is the theorem "
+             "fault_isolated (tracks without action callbacks, any position / number of tracks / fault site), and is also decided by a "
+             "differential oracle on the real code (with vs without the failing tracks).",
         technique="Lean 4 induction over the track snapshot + fault-injection differential oracle + correspondence"),
     "C02": dict(
         text="Theorems over ALL histories of the scheduler model (any number of API calls, ticks, callbacks, faults): "
